@@ -34,7 +34,11 @@ def _spawn(prop, seed, tier, cases, out, variant, case_timeout, logprefix):
            '--cases', ','.join(map(str, cases)), '--out', out, '--variant', variant,
            '--case-timeout', str(case_timeout)]
     errf = open(out + '.stderr', 'ab')
-    return subprocess.Popen(cmd, cwd=os.path.dirname(out), env=env, stdout=errf, stderr=errf)  # EPANET drops en* temp files in cwd
+    # a private cwd per worker: EPANET drops en* temp files there and EpanetSimulator's default
+    # file_prefix writes temp.inp/.bin/.rpt into cwd - concurrent workers must not share them
+    wd = out + '.cwd'
+    os.makedirs(wd, exist_ok=True)
+    return subprocess.Popen(cmd, cwd=wd, env=env, stdout=errf, stderr=errf)
 
 
 def _read_out(path):
